@@ -842,6 +842,66 @@ class VerifyModel:
                 v = fold_name(prog, f.module, n.value, f.cls)
                 if isinstance(v, str):
                     self.attrs.add(v)
+        # loops over a constant table of rows: they are run row by row
+        #   for modes, attr, label in _MODE_REQUIREMENTS: ...
+        self.tables = {}
+        for h, loop in self.g.loop_ast.items():
+            if not isinstance(loop, ast.For) or loop.orelse:
+                continue
+            t = loop.target
+            names = [e.id for e in t.elts if isinstance(e, ast.Name)] \
+                if isinstance(t, (ast.Tuple, ast.List)) else (
+                    [t.id] if isinstance(t, ast.Name) else [])
+            width = len(t.elts) if isinstance(t, (ast.Tuple, ast.List)) else 1
+            rows = fold_table(prog, f, loop.iter)
+            if isinstance(rows, dict) and width == 1:
+                rows = list(rows)
+            if not names or len(names) != width or \
+                    not isinstance(rows, list) or not rows:
+                continue
+            rows = [r if isinstance(t, (ast.Tuple, ast.List)) else (r,)
+                    for r in rows]
+            if any(not isinstance(r, tuple) or len(r) != width for r in rows):
+                continue
+            self.tables[h] = (names, [tuple(self._hashable(x) for x in r)
+                                      for r in rows])
+            for i, nm in enumerate(names):
+                if nm in keyed:
+                    self.attrs |= {r[i] for r in rows if isinstance(r[i], str)}
+
+    @staticmethod
+    def _hashable(v):
+        if isinstance(v, (list, tuple, set, frozenset)):
+            try:
+                return tuple(sorted(v)) if isinstance(v, (set, frozenset)) \
+                    else tuple(v)
+            except TypeError:
+                return UNKNOWN
+        if isinstance(v, (str, int, float, bool, type(None))):
+            return v
+        return UNKNOWN
+
+    @staticmethod
+    def _subst(atom, env):
+        """the test with the names bound to constants (rows of a table
+        driven loop) replaced by these constants"""
+        env = dict(env)
+        if not any(isinstance(n, ast.Name) and n.id in env
+                   for n in walk(atom)):
+            return atom
+
+        def lit(v):
+            if isinstance(v, tuple):
+                return ast.Tuple(elts=[lit(x) for x in v], ctx=ast.Load())
+            return ast.Constant(value=v)
+
+        class S(ast.NodeTransformer):
+            def visit_Name(self, n):
+                if isinstance(n.ctx, ast.Load) and n.id in env:
+                    return ast.copy_location(lit(env[n.id]), n)
+                return n
+        import copy
+        return ast.fix_missing_locations(S().visit(copy.deepcopy(atom)))
 
     def _is_mode(self, e):
         return self_key(e) in self.MODE or (isinstance(e, ast.Name) and
@@ -893,6 +953,7 @@ class VerifyModel:
             if k in truthy:
                 return True
             return rest
+        atom = self._subst(atom, env)
         cc = const_compare(self.prog, self.f.module, atom, self.f.cls)
         if cc is not None:
             try:
@@ -924,12 +985,34 @@ class VerifyModel:
                                st[1])
                 if v is not None and v != (edge.label == 'T'):
                     return None
+            if node.kind == 'for' and node.id in self.tables and \
+                    edge.label in ('iter', 'done'):
+                # table driven loop: row by row, `done` after the last row
+                names, rows = self.tables[node.id]
+                idx = dict(st[2])
+                i = idx.get(node.id, 0)
+                if edge.label == 'done':
+                    if i < len(rows):
+                        return None
+                    idx.pop(node.id, None)
+                    return (st[0], st[1], tuple(sorted(idx.items())))
+                if i >= len(rows):
+                    return None
+                idx[node.id] = i + 1
+                env = dict(st[1])
+                for nm, v in zip(names, rows[i]):
+                    if v is UNKNOWN:
+                        env.pop(nm, None)
+                    else:
+                        env[nm] = v
+                return (st[0], tuple(sorted(env.items(), key=lambda x: x[0])),
+                        tuple(sorted(idx.items())))
             if node.kind == 'stmt' and isinstance(node.ast, ast.Assign) and \
                     edge.label != 'exc':
                 for t in node.ast.targets:
                     if self_key(t) in self.MODE:
                         return (fold_name(self.prog, f.module, node.ast.value,
-                                          f.cls), st[1])
+                                          f.cls),) + st[1:]
                     if isinstance(t, ast.Name) and t.id not in self.lookups:
                         env = dict(st[1])
                         v = fold_name(self.prog, f.module, node.ast.value,
@@ -940,13 +1023,53 @@ class VerifyModel:
                         else:
                             env[t.id] = v
                         return (st[0], tuple(sorted(env.items(),
-                                                    key=lambda x: x[0])))
+                                                    key=lambda x: x[0])),
+                                st[2])
             return st
 
-        ex = Exploration(g, g.entry.id, (mode, ()), transfer)
         out = set()
-        for t in ex.terminals:
-            out.add('exit' if t.node == g.exit.id else 'raise')
+        for nid in self._explore((mode, (), ()), transfer):
+            out.add('exit' if nid == g.exit.id else 'raise')
+        return out
+
+    def _explore(self, init, transfer, max_states=200000):
+        """flow.Exploration (product of cfg node, state, loops entered; each
+        loop body entered once per path), except that a loop over a constant
+        table is run once per row: its position is part of the state.  Returns
+        the exits reached (node ids)"""
+        from collections import deque
+        g = self.g
+        ends = (g.exit.id, g.raise_.id)
+        k0 = (g.entry.id, init, frozenset())
+        seen, todo, out = {k0}, deque([k0]), set()
+        while todo:
+            nid, st, entered = todo.popleft()
+            if len(seen) > max_states:
+                raise RuntimeError('path exploration exceeds %d states'
+                                   % max_states)
+            for e in g.succ[nid]:
+                ent = entered
+                if e.enter is not None and e.enter not in self.tables:
+                    if e.enter in entered:
+                        continue
+                    ent = entered | {e.enter}
+                st2 = transfer(g.nodes[nid], e, st)
+                if st2 is None:
+                    continue
+                if st2[2]:
+                    # a loop which was left (break) starts again when it is
+                    # reached again
+                    st2 = st2[:2] + (tuple(
+                        (h, i) for h, i in st2[2]
+                        if e.dst == h or e.dst in g.loop_body[h]),)
+                k2 = (e.dst, st2, ent)
+                if k2 in seen:
+                    continue
+                seen.add(k2)
+                if e.dst in ends:
+                    out.add(e.dst)
+                    continue
+                todo.append(k2)
         return out
 
     def required(self, mode):
@@ -2318,6 +2441,20 @@ def r19_10(prog, rep, rid='R19.10'):
                          "[{'index': 3, 'occupation': 0.5}]"))
     # new -> old: entries are reduced to their index
     f = prog.function(MISC, 'convert_slots_to_old')
+    top = InputFlow(prog, f, f.params[0])
+
+    def over_slots(x, elt, par):
+        # the selector reads a SLOT of the input list (the variable of a loop /
+        # comprehension over the converter's input), not an entry of a slot
+        base = x.func.value if isinstance(x, ast.Call) and \
+            isinstance(x.func, ast.Attribute) else getattr(x, 'value', None)
+        if not isinstance(base, ast.Name):
+            return False
+        for tgt, it, loop in _binders(elt, par):
+            if base.id in stores_in_target(tgt):
+                return top._over_input(it)
+        return False
+
     for fn in converter_funcs(prog, f):
         par = _parents(fn.node)
         for n in walk(fn.node):
@@ -2334,7 +2471,8 @@ def r19_10(prog, rep, rid='R19.10'):
             for x in walk(elt):
                 sel = component_of(x, elt, par) if isinstance(
                     x, (ast.Subscript, ast.Attribute, ast.Call)) else None
-                if sel and sel[0] == 'key':
+                if sel and sel[0] == 'key' and not (
+                        fn is f and over_slots(x, elt, par)):
                     keys.append(sel[1])
             if not keys:
                 continue
@@ -2667,6 +2805,419 @@ class CtorMaps:
         return out
 
 
+# ------------------------------------------------------------------------------
+# R19.12  a slot converter hands the input list back unconverted only when a
+#         test on the WHOLE list says so (the format is decided per slot)
+#
+def _is_input(e, al):
+    """the expression is the input list itself or a shallow copy of it"""
+    if isinstance(e, ast.Name):
+        return e.id in al
+    if isinstance(e, ast.Call) and len(e.args) == 1 and not e.keywords:
+        fn = dotted(e.func) or ''
+        if fn in ('list', 'tuple', 'copy.copy', 'copy'):
+            return _is_input(e.args[0], al)
+    if isinstance(e, ast.Call) and not e.args and not e.keywords and \
+            isinstance(e.func, ast.Attribute) and e.func.attr == 'copy':
+        return _is_input(e.func.value, al)
+    if isinstance(e, ast.Subscript) and isinstance(e.slice, ast.Slice) and \
+            e.slice.lower is None and e.slice.upper is None and \
+            e.slice.step is None:
+        return _is_input(e.value, al)
+    return False
+
+
+def _own_nodes(fnode):
+    """ast nodes of the function without those of nested functions"""
+    todo = list(ast.iter_child_nodes(fnode))
+    while todo:
+        n = todo.pop()
+        yield n
+        if not isinstance(n, (ast.FunctionDef, ast.AsyncFunctionDef,
+                              ast.Lambda)):
+            todo.extend(ast.iter_child_nodes(n))
+
+
+class InputFlow:
+    """names which stand for the input list of a function (flow insensitive)
+    and the single elements of that list an expression depends on"""
+
+    def __init__(self, prog, f, param):
+        self.prog, self.f, self.param = prog, f, param
+        self.defs, self.loops = {}, {}
+        for n in _own_nodes(f.node):
+            if isinstance(n, ast.Assign) and len(n.targets) == 1 and \
+                    isinstance(n.targets[0], ast.Name):
+                self.defs.setdefault(n.targets[0].id, []).append(n.value)
+            elif isinstance(n, ast.For):
+                for nm in stores_in_target(n.target):
+                    self.loops.setdefault(nm, []).append(n)
+        self.al = {param}
+        while True:
+            more = {nm for nm, vs in self.defs.items() if nm not in self.al
+                    and any(_is_input(v, self.al) for v in vs)}
+            if not more:
+                break
+            self.al |= more
+
+    def _over_input(self, it):
+        """the loop runs over the input list (plain, enumerate, reversed..)"""
+        if _is_input(it, self.al):
+            return True
+        if isinstance(it, ast.Call) and it.args and \
+                (dotted(it.func) or '') in ('enumerate', 'reversed', 'sorted',
+                                            'iter'):
+            return self._over_input(it.args[0])
+        return False
+
+    def elements(self, expr, in_loops=(), _seen=None, _depth=0):
+        """[text]: the single elements of the input `expr` depends on: an
+        element picked by a constant index / next(iter(..)), the variable of
+        a loop over the input when that loop is one of `in_loops` (ast.For
+        nodes), and what a module function computes from such an element"""
+        seen = set() if _seen is None else _seen
+        out = []
+        bound = set()
+        for n in walk(expr):
+            if isinstance(n, ast.comprehension):
+                bound |= set(stores_in_target(n.target))
+        for n in walk(expr):
+            if isinstance(n, ast.Subscript) and _is_input(n.value, self.al) \
+                    and not isinstance(n.slice, ast.Slice):
+                i = n.slice
+                if isinstance(i, ast.UnaryOp) and isinstance(i.op, ast.USub):
+                    i = i.operand
+                if isinstance(i, ast.Constant) and isinstance(i.value, int):
+                    out.append('`%s`' % short(n, 40))
+                elif any(isinstance(x, ast.Name) and any(
+                        lp in in_loops for lp in self.loops.get(x.id, []))
+                        for x in walk(n.slice)):
+                    out.append('`%s`' % short(n, 40))
+            elif isinstance(n, ast.Call) and dotted(n.func) == 'next' and \
+                    n.args and self._over_input(n.args[0]):
+                out.append('`%s`' % short(n, 40))
+            elif isinstance(n, ast.Call) and _depth < 2:
+                out += self._through_call(n, _depth)
+            if isinstance(n, ast.Name) and isinstance(n.ctx, ast.Load) and \
+                    n.id not in self.al and n.id not in bound and \
+                    n.id not in seen:
+                seen.add(n.id)
+                for lp in self.loops.get(n.id, []):
+                    if lp in in_loops and self._over_input(lp.iter):
+                        out.append('`%s` (one element of the loop over `%s`)'
+                                   % (n.id, short(lp.iter, 30)))
+                for v in self.defs.get(n.id, []):
+                    out += self.elements(v, in_loops, seen, _depth)
+        return out
+
+    def _through_call(self, call, depth):
+        """a module level / nested function which gets the input list and
+        whose result depends on a single element of it"""
+        hit = [i for i, a in enumerate(call.args) if _is_input(a, self.al)]
+        kws = [k.arg for k in call.keywords
+               if k.arg and _is_input(k.value, self.al)]
+        if not hit and not kws:
+            return []
+        callee = self.prog.resolve_call(self.f, call)
+        if callee is None or callee.cls is not None:
+            return []
+        params = list(callee.params)
+        names = [params[i] for i in hit if i < len(params)] + \
+                [k for k in kws if k in params]
+        out = []
+        for nm in names:
+            sub = InputFlow(self.prog, callee, nm)
+            g = cfg_of(callee)
+            for node in g.nodes:
+                if node.kind != 'stmt' or not isinstance(node.ast, ast.Return):
+                    continue
+                exprs = [node.ast.value] if node.ast.value is not None else []
+                exprs += [t.ast for t in _controls(g, node.id)]
+                for e in exprs:
+                    for el in sub.elements(e, (), None, depth + 1):
+                        out.append('%s in %s()' % (el, callee.name))
+        return out
+
+
+def _controls(g, target):
+    """test nodes the target is control dependent on: the target is reachable
+    from the test, but not from one of its branches (without coming back to
+    the test)"""
+    out = []
+    for n in g.nodes:
+        if n.kind != 'test':
+            continue
+        reach = [target in g.reachable(e.dst, skip_nodes={n.id})
+                 for e in g.succ[n.id] if e.label in ('T', 'F')]
+        if any(reach) and not all(reach):
+            out.append(n)
+    return out
+
+
+def _single_slot_list(atom, pol, al):
+    """the guard says that the list has one element"""
+    if not isinstance(atom, ast.Compare) or len(atom.ops) != 1:
+        return False
+    l, op, r = atom.left, atom.ops[0], atom.comparators[0]
+    if not (isinstance(l, ast.Call) and dotted(l.func) == 'len' and
+            len(l.args) == 1 and _is_input(l.args[0], al) and
+            isinstance(r, ast.Constant)):
+        return False
+    return (isinstance(op, ast.Eq) and r.value == 1 and pol) or \
+           (isinstance(op, ast.NotEq) and r.value == 1 and not pol) or \
+           (isinstance(op, ast.Lt) and r.value == 2 and pol) or \
+           (isinstance(op, ast.LtE) and r.value == 1 and pol) or \
+           (isinstance(op, ast.Gt) and r.value == 1 and not pol) or \
+           (isinstance(op, ast.GtE) and r.value == 2 and not pol)
+
+
+def r19_12(prog, rep, rid='R19.12'):
+    from ..flow import guard_atoms
+    rep.rule(rid, 'a slot converter hands its input list back unconverted '
+             'only under tests on the whole list: the format is decided slot '
+             'by slot, a test on one slot does not decide for the others',
+             minimum=2)
+    for fname in ('convert_slots_to_new', 'convert_slots_to_old'):
+        f = prog.function(MISC, fname)
+        rep.saw(f)
+        g = cfg_of(f)
+        flow = InputFlow(prog, f, f.params[0])
+        returned = set()
+        for n in g.nodes:
+            if n.kind == 'stmt' and isinstance(n.ast, ast.Return) and \
+                    isinstance(n.ast.value, ast.Name):
+                returned.add(n.ast.value.id)
+        events = []
+        for n in g.nodes:
+            if n.kind != 'stmt':
+                continue
+            if isinstance(n.ast, ast.Return) and n.ast.value is not None \
+                    and _is_input(n.ast.value, flow.al):
+                events.append(n)
+            elif isinstance(n.ast, ast.Assign) and \
+                    _is_input(n.ast.value, flow.al) and any(
+                        isinstance(t, ast.Name) and t.id in returned and
+                        t.id != flow.param for t in n.ast.targets):
+                events.append(n)
+        bad = 0
+        for ev in events:
+            if any(_single_slot_list(a, pol, flow.al)
+                   for a, pol in guard_atoms(g, ev.id)):
+                continue
+            in_loops = tuple(g.loop_ast[h] for h in ev.loops
+                             if isinstance(g.loop_ast.get(h), ast.For))
+            for t in _controls(g, ev.id):
+                els = flow.elements(t.ast, in_loops)
+                if not els:
+                    continue
+                bad += 1
+                rep.bad(rid, f, 'one-element test before `%s`'
+                        % short(ev.ast, 40),
+                        '%s: `%s` hands the input list back as it is, and '
+                        'whether it is reached depends on the test `%s` which '
+                        'looks at %s only; the other slots of the list may be '
+                        'in the other format (the converter itself decides '
+                        'the format slot by slot) and stay unconverted'
+                        % (fname, short(ev.ast, 40), short(t.ast, 50),
+                           ', '.join(sorted(set(els)))), f.loc(t.ast),
+                        history='%s([A, B]) where A already has the target '
+                        'format and B does not: the test looks at A, the list '
+                        'comes back unchanged and B reaches the consumer in '
+                        'the wrong format (jsrun indexes slot[\'cores\'] as '
+                        'list of lists; Node.allocate_slot reads ro.index)'
+                        % fname)
+                break
+        if not bad:
+            rep.ok(rid, f, '%s: %d exit(s) hand the input list back, each '
+                   'decided by tests on the whole list' % (fname, len(events)),
+                   f.loc())
+
+
+# ------------------------------------------------------------------------------
+# R19.13  a handler which retries the guarded primitive another way (fallback)
+#         catches at least what the handler around the retry gives up on
+#
+def _exc_chain(prog, fn, expr):
+    """names of the exception class `expr` and of its bases (builtins by name,
+    classes of the pickle module as pickle.X, package classes by `where`);
+    None if the class is not known"""
+    import builtins
+    import pickle as _pickle
+
+    def of_type(k):
+        return [q.__name__ if q.__module__ == 'builtins'
+                else 'pickle.' + q.__name__
+                for q in k.__mro__ if q is not object]
+    nm = dotted(expr)
+    b = getattr(builtins, nm, None) if nm and '.' not in nm else None
+    r = prog.resolve(fn.module, expr, scope_imports(fn))
+    if r is None and isinstance(b, type) and issubclass(b, BaseException):
+        return of_type(b)
+    if r and r[0] == 'ext' and r[1].startswith('pickle.'):
+        k = getattr(_pickle, r[1][len('pickle.'):], None)
+        if isinstance(k, type) and issubclass(k, BaseException):
+            return of_type(k)
+    if r and r[0] == 'class':
+        out = []
+        for k in prog.mro(r[1]):
+            out.append(k.where)
+            for bx in k.node.bases:
+                sub = _exc_chain(prog, fn, bx)
+                if sub and prog.resolve(k.module, bx) is None:
+                    out += sub
+        return out
+    return None
+
+
+def _handler_types(h):
+    if h.type is None:
+        return [None]
+    return list(h.type.elts) if isinstance(h.type, ast.Tuple) else [h.type]
+
+
+def _ext_calls(prog, fn, stmts):
+    """[(call, external dotted name)] in the statements (nested functions
+    excluded)"""
+    out = []
+    limp = scope_imports(fn)
+    for st in stmts:
+        for c in [st] + list(_own_nodes(st)):
+            if isinstance(c, ast.Call) and dotted(c.func):
+                r = prog.resolve(fn.module, c.func, limp)
+                if r and r[0] == 'ext':
+                    out.append((c, r[1]))
+    return out
+
+
+def _enclosing_try(stmts, call):
+    """innermost try below `stmts` whose BODY holds the call (None: the call
+    is not guarded there)"""
+    found = []
+
+    def rec(node, cur):
+        if node is call:
+            found.append(cur)
+            return
+        if isinstance(node, (ast.FunctionDef, ast.AsyncFunctionDef,
+                             ast.Lambda)):
+            return
+        if isinstance(node, ast.Try):
+            for b in node.body:
+                rec(b, node)
+            for part in (node.handlers, node.orelse, node.finalbody):
+                for b in part:
+                    rec(b, cur)
+            return
+        for c in ast.iter_child_nodes(node):
+            rec(c, cur)
+    for st in stmts:
+        rec(st, None)
+    return found[0] if found else None
+
+
+def _retries(prog, fn, handler, names, depth=0):
+    """[(external name, try around the retry | None)]: calls in the handler
+    (or in a module function it calls) of an external callee in `names`"""
+    out = []
+    for c, ext in _ext_calls(prog, fn, handler.body):
+        if ext in names:
+            out.append((ext, _enclosing_try(handler.body, c)))
+    if depth == 0:
+        for st in handler.body:
+            for c in [st] + list(_own_nodes(st)):
+                if not isinstance(c, ast.Call):
+                    continue
+                callee = prog.resolve_call(fn, c)
+                if callee is None or callee.cls is not None or \
+                        callee.module is not fn.module:
+                    continue
+                for c2, ext in _ext_calls(prog, callee, callee.node.body):
+                    if ext in names:
+                        out.append((ext, _enclosing_try(callee.node.body, c2)
+                                    or _enclosing_try(handler.body, c)))
+    return out
+
+
+def r19_13(prog, rep, rid='R19.13'):
+    rep.rule(rid, 'a handler of the serializer which tries the failed '
+             'primitive again another way (fallback) catches at least the '
+             'exceptions on which the handler around that retry gives up',
+             minimum=1)
+    ser = prog.module(SER)
+    for name, fn in sorted(ser.funcs.items()):
+        tries = [n for n in _own_nodes(fn.node) if isinstance(n, ast.Try)]
+        if not tries:
+            continue
+        rep.saw(fn)
+        found = 0
+        for t1 in tries:
+            names = {ext for c, ext in _ext_calls(prog, fn, t1.body)}
+            if not names:
+                continue
+            per = {}
+            for h in t1.handlers:
+                for ext, t2 in _retries(prog, fn, h, names):
+                    per.setdefault(ext, []).append((h, t2))
+            for ext, hs in sorted(per.items()):
+                found += 1
+                wide = [ty for h, t2 in hs for ty in _handler_types(h)]
+                heads = set()
+                for ty in wide:
+                    ch = ['BaseException'] if ty is None else \
+                        _exc_chain(prog, fn, ty)
+                    heads.add(ch[0] if ch else unparse(ty))
+                if heads & {'BaseException'}:
+                    heads.add('Exception')
+                missed = []
+                for h, t2 in hs:
+                    for h2 in (t2.handlers if t2 is not None else []):
+                        for ty in _handler_types(h2):
+                            if ty is None:
+                                ch = ['Exception']
+                            else:
+                                ch = _exc_chain(prog, fn, ty)
+                                if ch and ch[0] == 'BaseException':
+                                    ch = ['Exception']
+                            if ch is None:
+                                if unparse(ty) in heads or \
+                                        'Exception' in heads:
+                                    continue
+                                raise AnalysisError(
+                                    'UNRECOGNISED-IDIOM %s: exception class '
+                                    '`%s` is not known' % (fn.where,
+                                                           unparse(ty)))
+                            if not (heads & set(ch)):
+                                missed.append(ty)
+                first = hs[0][0]
+                rep.check(not missed, rid, fn,
+                          '%s: the handler which retries %s catches what the '
+                          'handler around the retry catches' % (name, ext),
+                          construct='fallback of %s' % ext,
+                          message='%s: `except %s` is the handler which tries '
+                          '%s again another way, but the handler around that '
+                          'second attempt gives up on `%s`: that is what this '
+                          'function regards as a failure of %s, and a first '
+                          'attempt failing with such an exception which is '
+                          'not %s leaves the function without the fallback '
+                          'being tried (dill reports an object it cannot '
+                          'pickle by value with TypeError, not PicklingError)'
+                          % (name, ', '.join(unparse(x) if x is not None
+                                             else '<all>' for x in wide) or
+                             '<all>', ext,
+                             ', '.join(sorted({unparse(x) if x is not None else
+                                               '<all>' for x in missed})),
+                             ext, ' / '.join(sorted(heads))),
+                          loc=fn.loc(first),
+                          history='PythonTask(obj) for a callable instance '
+                          'whose class holds something dill cannot copy by '
+                          'value (a running generator): dill.dumps(obj) raises '
+                          'TypeError, the by-reference attempt which would '
+                          'succeed is skipped and the encoder raises')
+        if not found:
+            rep.ok(rid, fn, '%s: no handler retries the guarded primitive'
+                   % name, fn.loc())
+
+
 class _NeedChoice(Exception):
     def __init__(self, expr):
         self.expr = expr
@@ -2926,6 +3477,8 @@ def run(prog, rep, tier):
     r19_4(prog, rep)
     r19_5(prog, rep)
     r19_10(prog, rep)
+    r19_12(prog, rep)
+    r19_13(prog, rep)
     rep.attempt(r19_7, prog, rep)
     if tier == 'thorough':
         r19_3(prog, rep)
@@ -3173,6 +3726,14 @@ _CORPUS = {
         ('utils/misc.py',
          "            new_slots.append(slot)\n            continue\n\n        cores = slot['cores']\n        if cores:\n            if isinstance(cores[0], RO):\n                pass\n            elif isinstance(cores[0], int):\n                cores = [RO(index=i, occupation=1.0)\n                         for i in slot['cores']]\n            elif isinstance(cores[0], dict):\n                cores = list()\n                for ro in slot['cores']:\n                    i = ro['index']\n                    o = ro['occupation']\n                    cores.append(RO(index=i, occupation=o))\n            else:\n                cores = [RO(index=i, occupation=o)\n                         for i,o in slot['cores']]\n\n\n        gpus = slot['gpus']\n        if gpus:\n            if isinstance(gpus[0], RO):\n                pass\n            elif isinstance(gpus[0], int):\n                gpus  = [RO(index=i, occupation=1.0)\n                         for i in slot['gpus']]\n            elif isinstance(gpus[0], dict):\n                gpus = list()\n                for ro in slot['gpus']:\n                    i = ro['index']\n                    o = ro['occupation']\n                    gpus.append(RO(index=i, occupation=o))\n            else:\n                gpus  = [RO(index=i, occupation=o)\n                         for i,o in slot['gpus']]\n\n        new_slot = Slot(cores=cores,\n                        gpus=gpus,\n",
          "            new_slots.append(slot)\n            continue\n\n        cores = to_ros(slot['cores'])\n        gpus  = to_ros(slot['gpus'])\n\n        new_slot = Slot(cores=cores,\n                        gpus=gpus,\n"),
+    ],
+    'C19-r9': [
+        ('task_description.py',
+         "METADATA         = 'metadata'\n\n\n# ------------------------------------------------------------------------------\n#\nclass TaskDescription(FastTypedDict):\n",
+         "METADATA         = 'metadata'\n\n\n# attribute required per task mode: (modes, attribute, label to use in the error\n# message).  Without label, the error message uses the upper-cased mode name.\n_MODE_REQUIREMENTS = [\n    ([TASK_EXECUTABLE, TASK_SERVICE, AGENT_SERVICE, TASK_PROC], EXECUTABLE, None),\n    ([TASK_FUNC, TASK_METH]                                   , FUNCTION  , 'TASK_FUNC'),\n    ([TASK_EVAL, TASK_EXEC]                                   , CODE      , None),\n    ([TASK_SHELL]                                             , COMMAND   , None),\n]\n\n\n# ------------------------------------------------------------------------------\n#\nclass TaskDescription(FastTypedDict):\n"),
+        ('task_description.py',
+         '        if not self.get(\'mode\'):\n            self[\'mode\'] = TASK_EXECUTABLE\n\n        if self.mode in [TASK_EXECUTABLE, TASK_SERVICE, AGENT_SERVICE]:\n            if not self.get(\'executable\'):\n                umode = self.mode.upper().replace(\'.\', \'_\')\n                raise ValueError("%s Task mode needs \'executable\'" % umode)\n\n        elif self.mode in [TASK_FUNC, TASK_METH]:\n            if not self.get(\'function\'):\n                raise ValueError("TASK_FUNC Task mode needs \'function\'")\n            if self.get(\'named_env\'):\n                raise ValueError("TASK_FUNC and TASK_METH Task mode does not "\n                                 "support \'named_env\'")\n\n        elif self.mode == TASK_PROC:\n            if not self.get(\'executable\'):\n                raise ValueError("TASK_PROC Task mode needs \'executable\'")\n\n        elif self.mode == TASK_EVAL:\n            if not self.get(\'code\'):\n                raise ValueError("TASK_EVAL Task mode needs \'code\'")\n\n        elif self.mode == TASK_EXEC:\n            if not self.get(\'code\'):\n                raise ValueError("TASK_EXEC Task mode needs \'code\'")\n\n        elif self.mode == TASK_SHELL:\n            if not self.get(\'command\'):\n                raise ValueError("TASK_SHELL Task mode needs \'command\'")\n\n        # backward compatibility for deprecated attributes\n        if self.cpu_processes:\n',
+         '        if not self.get(\'mode\'):\n            self[\'mode\'] = TASK_EXECUTABLE\n\n        # check the attribute required by the task mode\n        mode = self.mode\n        for modes, attr, label in _MODE_REQUIREMENTS:\n\n            if mode not in modes:\n                continue\n\n            if not self.get(attr):\n                if not label:\n                    label = mode.upper().replace(\'.\', \'_\')\n                raise ValueError("%s Task mode needs \'%s\'" % (label, attr))\n\n            break\n\n        if mode in [TASK_FUNC, TASK_METH] and self.get(\'named_env\'):\n            raise ValueError("TASK_FUNC and TASK_METH Task mode does not "\n                             "support \'named_env\'")\n\n        # backward compatibility for deprecated attributes\n        if self.cpu_processes:\n'),
     ],
 }
 
@@ -3433,4 +3994,97 @@ SILENT += [
         (_R, "            if gpus:\n                if gpus[0].__class__", "            gpus = from_dict.get('gpus')\n            if gpus is not None and gpus:\n                if gpus[0].__class__")]),
     dict(name='Node.__init__ merges presence and type test of the gpus', edits=[
         (_R, _NODE_GPUS, "\n        if gpus and not isinstance(gpus[0], RO):\n            if True:\n")]),
+]
+
+
+# ------------------------------------------------------------------------------
+# round 5: table driven mode loop (corpus C19-r9) decided row by row by R19.2;
+# R19.12 (the input list is handed back only on tests over the whole list),
+# R19.13 (breadth of the handler which provides the fallback)
+#
+_OLD_HEAD = "    if not slots:\n        return slots\n\n    old_slots = list()\n"
+_NEW_HEAD = "    if not slots:\n        return slots\n\n    new_slots = list()\n"
+_OLD_DEF  = "def convert_slots_to_old(slots, log=None):\n\n    if not slots:\n        return slots\n"
+_SER_H1   = "    except Exception as e:\n        try:\n            return dill.dumps(obj, byref=True)\n"
+_SER_H2   = "        except Exception as e2:\n            raise SerializationError(\"Failed to serialize object\", e2) from e2\n"
+_SER_TRY  = "    try:\n        if callable(obj):\n            return dill.dumps(obj)\n        else:\n            return dill.dumps(obj, recurse=True)\n"
+_SER_HELP = ("def _by_ref(obj):\n    try:\n        return dill.dumps(obj, byref=True)\n    except Exception as e2:\n"
+             "        raise SerializationError(\"Failed to serialize object\", e2) from e2\n\n\ndef serialize_obj(obj):\n")
+_R9_ROW   = "    ([TASK_EVAL, TASK_EXEC]                                   , CODE      , None),\n"
+
+MUTATIONS += [
+    # R19.2 on the table driven loop
+    dict(name='R19.2 corpus C19-r9, TASK_EXEC missing in its table row', rules=('R19.2',), edits=_CORPUS['C19-r9'] + [
+        (_T, _R9_ROW, _R9_ROW.replace("[TASK_EVAL, TASK_EXEC]", "[TASK_EVAL]           "))]),
+    dict(name='R19.2 corpus C19-r9, code row asks for command', rules=('R19.2',), edits=_CORPUS['C19-r9'] + [
+        (_T, _R9_ROW, _R9_ROW.replace("CODE      ,", "COMMAND   ,"))]),
+    dict(name='R19.2 corpus C19-r9, loop leaves at the first row which does not match', rules=('R19.2',), edits=_CORPUS['C19-r9'] + [
+        (_T, "            if mode not in modes:\n                continue\n", "            if mode not in modes:\n                break\n")]),
+    dict(name='R19.2 corpus C19-r9, membership test inverted', rules=('R19.2',), edits=_CORPUS['C19-r9'] + [
+        (_T, "            if mode not in modes:\n                continue\n", "            if mode in modes:\n                continue\n")]),
+    # R19.12
+    dict(name='R19.12 seed C19-h3: already-old fast path looks at the first slot', rules=('R19.12',), edits=[
+        (_M, _OLD_HEAD, "    if not slots:\n        return slots\n\n    if not slots[0].get('version'):\n        return slots\n\n    old_slots = list()\n")]),
+    dict(name='R19.12 first-slot test merged into the emptiness guard (or)', rules=('R19.12',), edits=[
+        (_M, _OLD_HEAD, "    if not slots or not slots[0].get('version'):\n        return slots\n\n    old_slots = list()\n")]),
+    dict(name='R19.12 first slot through two locals', rules=('R19.12',), edits=[
+        (_M, _OLD_HEAD, "    if not slots:\n        return slots\n\n    first = slots[0]\n    is_old = not first.get('version')\n    if is_old:\n        return slots\n\n    old_slots = list()\n")]),
+    dict(name='R19.12 sibling: to_new returns the list when the LAST slot is new', rules=('R19.12',), edits=[
+        (_M, _NEW_HEAD, "    if not slots:\n        return slots\n\n    if slots[-1].get('version', 0) >= 1:\n        return slots\n\n    new_slots = list()\n")]),
+    dict(name='R19.12 the loop returns the input at the first old slot it meets', rules=('R19.12',), edits=[
+        (_M, "        if not slot.get('version'):\n            old_slots.append(slot)\n            continue\n", "        if not slot.get('version'):\n            return slots\n")]),
+    dict(name='R19.12 result variable aliased to the input on a first-slot test', rules=('R19.12',), edits=[
+        (_M, _OLD_HEAD, "    if not slots:\n        return slots\n\n    old_slots = list()\n    if not slots[0].get('version'):\n        old_slots = slots\n        slots = []\n\n")]),
+    dict(name='R19.12 first-slot test in a module helper', rules=('R19.12',), edits=[
+        (_M, _OLD_DEF, "def _is_old(slots):\n    return not slots[0].get('version')\n\n\n" + _OLD_DEF + "\n    if _is_old(slots):\n        return slots\n")]),
+    dict(name='R19.12 next(iter(..)) picks the slot, a copy is returned', rules=('R19.12',), edits=[
+        (_M, _OLD_HEAD, "    if not slots:\n        return slots\n\n    if next(iter(slots)).get('version') is None:\n        return list(slots)\n\n    old_slots = list()\n")]),
+    # R19.13
+    dict(name='R19.13 seed C19-h4: fallback handler narrowed to PicklingError', rules=('R19.13',), edits=[
+        (_S, _SER_H1, _SER_H1.replace("except Exception as e:", "except pickle.PicklingError as e:"))]),
+    dict(name='R19.13 fallback handler narrowed to a tuple', rules=('R19.13',), edits=[
+        (_S, _SER_H1, _SER_H1.replace("except Exception as e:", "except (pickle.PicklingError, AttributeError) as e:"))]),
+    dict(name='R19.13 fallback only on PickleError, a second handler gives up at once', rules=('R19.13',), edits=[
+        (_S, _SER_H1, _SER_H1.replace("except Exception as e:", "except pickle.PickleError as e:")),
+        (_S, _SER_H2, _SER_H2 + "    except Exception as e:\n        raise SerializationError(\"Failed to serialize object\", e) from e\n")]),
+    dict(name='R19.13 retry extracted into a helper, handler narrowed', rules=('R19.13',), edits=[
+        (_S, "def serialize_obj(obj):\n", _SER_HELP),
+        (_S, _SER_H1 + _SER_H2, "    except pickle.PicklingError as e:\n        return _by_ref(obj)\n")]),
+]
+
+SILENT += [
+    # R19.2 / table loop
+    dict(name='corpus C19-r9 with the rows tested in positive form', edits=_CORPUS['C19-r9'] + [
+        (_T, "            if mode not in modes:\n                continue\n\n            if not self.get(attr):\n                if not label:\n                    label = mode.upper().replace('.', '_')\n                raise ValueError(\"%s Task mode needs '%s'\" % (label, attr))\n\n            break\n",
+             "            if mode in modes:\n                if not self.get(attr):\n                    if not label:\n                        label = mode.upper().replace('.', '_')\n                    raise ValueError(\"%s Task mode needs '%s'\" % (label, attr))\n                break\n")]),
+    dict(name='corpus C19-r9 without the break (rows are disjoint)', edits=_CORPUS['C19-r9'] + [
+        (_T, "                raise ValueError(\"%s Task mode needs '%s'\" % (label, attr))\n\n            break\n", "                raise ValueError(\"%s Task mode needs '%s'\" % (label, attr))\n")]),
+    # R19.12
+    dict(name='already-old fast path quantified with all()', edits=[
+        (_M, _OLD_HEAD, "    if not slots:\n        return slots\n\n    if all(not slot.get('version') for slot in slots):\n        return slots\n\n    old_slots = list()\n")]),
+    dict(name='already-new fast path quantified with not any()', edits=[
+        (_M, _NEW_HEAD, "    if not slots:\n        return slots\n\n    if not any(s.get('version', 0) < 1 for s in slots):\n        return slots\n\n    new_slots = list()\n")]),
+    dict(name='already-old fast path through a flag set by a loop over all slots', edits=[
+        (_M, _OLD_HEAD, "    if not slots:\n        return slots\n\n    mixed = False\n    for slot in slots:\n        if slot.get('version'):\n            mixed = True\n            break\n    if not mixed:\n        return slots\n\n    old_slots = list()\n")]),
+    dict(name='emptiness guard spelled with len()', edits=[
+        (_M, _OLD_HEAD, "    if slots is None or len(slots) == 0:\n        return slots\n\n    old_slots = list()\n")]),
+    dict(name='fast path for a list of one old slot', edits=[
+        (_M, _OLD_HEAD, "    if not slots:\n        return slots\n\n    if len(slots) == 1 and not slots[0].get('version'):\n        return slots\n\n    old_slots = list()\n")]),
+    dict(name='first slot only looked at for a log message', edits=[
+        (_M, _OLD_HEAD, "    if not slots:\n        return slots\n\n    if log and slots[0].get('version'):\n        log.debug('new format')\n\n    old_slots = list()\n")]),
+    dict(name='all-old test in a module helper which loops over the slots', edits=[
+        (_M, _OLD_DEF, "def _all_old(slots):\n    for s in slots:\n        if s.get('version'):\n            return False\n    return True\n\n\n" + _OLD_DEF + "\n    if _all_old(slots):\n        return slots\n")]),
+    # R19.13
+    dict(name='fallback handler as a bare except', edits=[
+        (_S, _SER_H1, _SER_H1.replace("except Exception as e:", "except:"))]),
+    dict(name='fallback handler catches BaseException', edits=[
+        (_S, _SER_H1, _SER_H1.replace("except Exception as e:", "except BaseException as e:"))]),
+    dict(name='fallback handler with a one-element tuple', edits=[
+        (_S, _SER_H1, _SER_H1.replace("except Exception as e:", "except (Exception,) as e:"))]),
+    dict(name='by-reference attempt extracted into a helper with its own handler', edits=[
+        (_S, "def serialize_obj(obj):\n", _SER_HELP),
+        (_S, _SER_H1 + _SER_H2, "    except Exception as e:\n        return _by_ref(obj)\n")]),
+    dict(name='attempts as a loop over the option sets with one handler', edits=[
+        (_S, _SER_TRY + _SER_H1 + _SER_H2,
+             "    last = None\n    for kw in ({} if callable(obj) else {'recurse': True}, {'byref': True}):\n        try:\n            return dill.dumps(obj, **kw)\n        except Exception as e:\n            last = e\n    raise SerializationError(\"Failed to serialize object\", last) from last\n")]),
 ]
